@@ -672,6 +672,8 @@ func (c11) Exec(c string) (string, []Fail) {
 		}
 	}
 	switch {
+	case f[0] == "conc" || f[0] == "concli":
+		return c11ExecConc(c) // harness/c11_conc.go
 	case f[0] == "pcr" && len(f) == 11:
 		o, ok := c11ParseOpt(f[1:10])
 		if !ok {
@@ -2142,6 +2144,8 @@ func (c11) Gen(rng *rand.Rand, tier string, emit func(string)) {
 	if tier == "thorough" {
 		emit(c11CliLineX(rng, c11RandPrimer(rng, 7, 0), c11RandPrimer(rng, 6, 0), 0, 0, 3, -1, false, true, true))
 	}
+	// the worker closure / the whole command under concurrent use (harness/c11_conc.go) — LAST: the cases above keep their draws
+	c11GenConc(rng, tier, emit)
 }
 
 // obipcr without --fragmented on one (short) template
